@@ -164,7 +164,7 @@ def stall_scenario(params, ch):
     stalls (one long frame): everything due for resend meets in ONE packet build"""
     mtu, path, sizes, mode, stall = params
     sender = "c" if path == "client" else "s"
-    mon = DeliveryMonitor(flag_delivery=True)
+    mon = DeliveryMonitor(flag_delivery=False)
     sm = SizeMonitor(mtu)
     w = World(chooser=ch, monitors=[mon, sm], mtu=mtu, dt=0.02, server_send=("thread" if path == "server-thread" else "twisted"))
     try:
@@ -172,6 +172,16 @@ def stall_scenario(params, ch):
         w.run(2)
         w.start_blackout("s2c" if sender == "c" else "c2s", 40)   # acks are late
         queued = []
+        if sizes and sizes[0] == "burst":
+            # n retry-mode messages queued in ONE frame: with the acks withheld they all fall due for resend together
+            _, n, L = sizes
+            for i in range(n):
+                data = (b"%c%c" % (i % 251, i // 251)) + b"x" * max(0, L - 2) if L >= 2 else (b"" if L == 0 else b"%c" % (i % 251))
+                queued.append(data)
+                e = app_send(w, mon, sender, data, mode)
+                if e is not None:
+                    ch.flag("send-raises", "send() raises %s" % type(e).__name__, repr(e))
+            sizes = ()
         for i, L in enumerate(sizes):
             data = payload(i + 1, L)
             queued.append(data)
@@ -189,9 +199,12 @@ def stall_scenario(params, ch):
             ch.flag("packing-raises", "exception from the %s send/update path: %s" % (path, w.exceptions[0][1].split("(")[0]), repr(w.exceptions[:2]))
         if w.baton.dead:
             ch.flag("packing-raises", "server thread died while sending", repr(w.baton.error))
-        lost = [len(d) for d in queued if mon.delivered[recv].get(d, 0) < 1]
-        if lost:
-            ch.flag("lost-message", "queued retry-mode message(s) never reached the peer after an owner stall", "lengths %r" % lost)
+        want = {}
+        for d in queued:
+            want[d] = want.get(d, 0) + 1
+        lost = [len(d) for d, k in want.items() if mon.delivered[recv].get(d, 0) < (k if mode == "retry" else 1)]
+        if lost and (mode == "retry" or len(queued) < 50):
+            ch.flag("lost-message", "queued retry-mode message(s) never reached the peer after an owner stall", "lengths %r" % lost[:10])
         ch.outcome = (sm.max <= mtu - 28, len(lost))
     finally:
         for v in mon.violations + sm.violations:
@@ -210,13 +223,19 @@ def stall_params(tier):
                         if tier == "quick" and stall == 0.6 and path != "client":
                             continue
                         out.append((mtu, path, sizes, mode, stall))
+                for n, L in ((256, 0), (300, 0), (256, 2), (300, 1)):
+                    if tier == "quick" and (path == "server-thread" or (n, L) not in ((300, 0), (256, 2))):
+                        continue
+                    if (L + 5) * 256 + 20 + 16 > mtu - 28:
+                        continue        # 256 of them do not fit one datagram at this MTU anyway
+                    out.append((mtu, path, ("burst", n, L), mode, 0.25))
     return out
 
 
 def scenario(params, ch):
     mtu, path, sends, burst = params
     sender = "c" if path == "client" else "s"
-    mon = DeliveryMonitor(flag_delivery=True)
+    mon = DeliveryMonitor(flag_delivery=False)
     sm = SizeMonitor(mtu)
     w = World(chooser=ch, monitors=[mon, sm], mtu=mtu, server_send=("thread" if path == "server-thread" else "twisted"))
     try:
